@@ -190,3 +190,54 @@ func H_C15_bg() {
 	vCheckDir(db2, "C15bg.after")
 	vCover("C15bg.done")
 }
+
+// H_C15_idle: sessions that end while the active segment holds nothing but its
+// header (fresh database; every segment compacted away in the previous session;
+// restart without writes). After every Close no handle of the in-memory file
+// system (the analogue of descriptors / mappings) is left open, the file count
+// does not grow from the second idle restart on, and the database stays usable.
+// case 0: fresh database; case 1: after a compaction that removed everything.
+func H_C15_idle() {
+	n := 2
+	vlen := 2
+	opts := smallOpts(fs.Mem, 2, 10+8+vlen)
+	dir := "c15idle"
+	db, err := Open(dir, opts)
+	vAssert(err == nil, "C15i.open")
+	if err != nil {
+		return
+	}
+	r := newRef(n, 8)
+	if vCase()%2 == 1 {
+		applyOp(db, r, 0, 0, vlen, "C15i.op")
+		applyOp(db, r, 0, 1, vlen, "C15i.op")
+		applyOp(db, r, 1, 0, vlen, "C15i.op")
+		applyOp(db, r, 1, 1, vlen, "C15i.op")
+		applyOp(db, r, 2, 0, vlen, "C15i.op")
+		applyOp(db, r, 2, 0, vlen, "C15i.op")
+	}
+	files := -1
+	for round := 0; round < 3; round++ {
+		vAssert(db.Close() == nil, "C15i.close")
+		vAssert(fs.VerifOpenHandles() == 0, "C15i.no-open-handles-after-close")
+		db, err = Open(dir, opts)
+		vAssert(err == nil, "C15i.reopen")
+		if err != nil {
+			return
+		}
+		vCheckDir(db, "C15i")
+		checkReads(db, r, "C15i")
+		nf := len(vDirNames(db.opts.FileSystem))
+		// the first clean Close adds the side file of the (new) active segment;
+		// from then on idle restarts must not add files
+		if round >= 2 {
+			vAssert(nf <= files, "C15i.file-count-grows-over-idle-restarts")
+		}
+		files = nf
+	}
+	applyOp(db, r, 0, 0, vlen, "C15i.final")
+	checkReads(db, r, "C15i.final")
+	vAssert(db.Close() == nil, "C15i.final.close")
+	vAssert(fs.VerifOpenHandles() == 0, "C15i.final.no-open-handles-after-close")
+	vCover("C15i.done")
+}
